@@ -910,7 +910,9 @@ fn build_meta(class: u8, ux: &[(u32, u32)], uy: &[(u32, u32)], p: &[u32; 6]) -> 
     let rho = rho_of(p[3]);
     let gy: Vec<f64> = uy.iter().zip(&gx).map(|((a, b), g)| rho * g + (1.0 - rho * rho).sqrt() * normal(*a, *b)).collect();
     // grid unit 2^q
-    let q = (unit(p[2]) * 41.0).floor() as i32 - 20;
+    // 2^-70 .. 2^20: data whose absolute spread is far below 1 (Σdx² down to ~1e-38) as well as far above,
+    // so that a threshold on a dimensionful quantity (e.g. "M2 < ε ⇒ 0") cannot hide
+    let q = (unit(p[2]) * 91.0).floor() as i32 - 70;
     let u = 2f64.powi(q);
     let grid = |g: &f64, sd: f64| -> f64 { (g * sd).round() };
     let (kx, ky): (Vec<f64>, Vec<f64>) = match class {
@@ -940,7 +942,7 @@ fn build_meta(class: u8, ux: &[(u32, u32)], uy: &[(u32, u32)], p: &[u32; 6]) -> 
         let t = unit(r);
         let s = sgn(p[4], bit);
         if t < 0.5 {
-            s * 2f64.powi((t * 2.0 * 21.0).floor() as i32 - 10)
+            s * 2f64.powi((t * 2.0 * 51.0).floor() as i32 - 40)
         } else {
             s * (1.0 + ((t - 0.5) * 2.0 * 999.0).floor())
         }
